@@ -22,18 +22,32 @@ Fixpoint forall2i {A B} (f : nat -> A -> B -> bool) (i : nat) (a : list A) (b : 
   | x :: a', y :: b' => f i x y && forall2i f (S i) a' b'
   | _, _ => false
   end.
-Fixpoint zlist_eqb (x y : list Z) : bool :=
-  match x, y with [], [] => true | u :: x', v :: y' => (u =? v) && zlist_eqb x' y' | _, _ => false end.
 
 Definition item_match (a : item) (b : obs_item) : bool :=
   match a, b with
   | IX _, BX => true
-  | IY _, BY => true
+  | IY _ _, BY => true
   | IOther u, BRaw v => zlist_eqb u v
   | _, _ => false
   end.
 
-Definition model_matches (c : cfg) (Y : list (list Q)) (ob : list item) (r : result) (o : obs) : bool :=
+Definition cval_match (a b : cval) : bool :=
+  match a, b with
+  | VBools x, VBools y => forall2i (fun _ u v => Bool.eqb u v) 0 x y
+  | VLams x, VLams y => forall2i (fun _ u v => close tol_lab u v) 0 x y
+  | VRaw x, VRaw y => zlist_eqb x y
+  | _, _ => false
+  end.
+(* same keys in the same (dictionary insertion) order, matching values *)
+Definition ctx_match (m o : ctx_t) : bool :=
+  forall2i (fun _ a b => ckey_eqb (fst a) (fst b) && cval_match (snd a) (snd b)) 0 m o.
+
+(* the lambda the implementation held when it computed a half size is the drawn one: exactly (float64, lamb_mode
+   sample) or rounded to float32 (torch.tensor([rng.beta(..)]), lamb_mode batch) *)
+Definition held_match (f32 : bool) (drawn held : Q) : bool :=
+  if f32 then close (1 # 16777216) drawn held else Qeq_bool drawn held.
+
+Definition model_matches (c : cfg) (Y : list (list Q)) (ob : list item) (mctx : ctx_t) (r : result) (o : obs) : bool :=
   forall2i (img_match (img_h c) (img_w c)) 0 (imgs r) (o_imgs o)
   && match labs r, o_labs o with
      | None, None => true
@@ -43,26 +57,46 @@ Definition model_matches (c : cfg) (Y : list (list Q)) (ob : list item) (r : res
   && forall2i (fun _ a b => Bool.eqb a b) 0 (ctx_apply r) (o_apply o)
   && forall2i (fun _ a b => Bool.eqb a b) 0 (ctx_cutmix r) (o_cutmix o)
   && forall2i (fun _ a b => close tol_lab a b) 0 (ctx_lambda r) (o_lambda o)
-  && forall2i (fun _ a b => item_match a b) 0 ob (o_batch o).
+  && forall2i (fun _ a b => item_match a b) 0 ob (o_batch o)
+  && match get_item (tokens c) TClass ob with
+     | Some (IY _ nd) => Nat.eqb nd (o_lab_ndim o)
+     | _ => negb (has_item (tokens c) TClass)
+     end
+  && ctx_match mctx (o_ctx o)
+  && forall2i (fun _ a b => held_match (match lamb_mode c with PerBatch => true | PerSample => false end) a b)
+              0 (bbox_lams r) (o_held o).
 
-(* cfg, half box sizes, recorded draws, input label matrix, input batch (placeholders at x / class),
-   outcome (0 = returned, 1 = AssertionError), decoded output *)
-Definition case_t : Type := cfg * list (Z * Z) * trace * list (list Q) * list item * nat * obs.
+(* outcome codes of the harness: 0 returned; otherwise the exception class *)
+Definition err_code (e : err) : nat :=
+  match e with
+  | EDraw => 99
+  | EAssertFlip => 1
+  | EAssertLabel => 2
+  | EUnpack => 3
+  | ECast => 4
+  | EView => 5
+  | ENoX => 6
+  | EItem => 98
+  end%nat.
+
+(* cfg, half box sizes, recorded draws, input label matrix, input batch (placeholders at x / class), input context,
+   outcome (0 = returned, otherwise err_code of the exception), decoded output *)
+Definition case_t : Type := cfg * list (Z * Z) * trace * list (list Q) * list item * ctx_t * nat * obs.
 
 (* 0 = implementation, model and spec agree; 1 = model differs from the implementation;
    2 = the spec is false on the implementation's output *)
 Definition check (t : case_t) : nat :=
-  let '(c, halves, tr, Y, batch, outcome, o) := t in
+  let '(c, halves, tr, Y, batch, ctx, outcome, o) := t in
   match outcome with
   | O =>
-      if negb (spec_obs c Y tr batch o) then 2%nat else
-      match collate_batch c halves batch tr with
-      | Some ((ob, r), []) => if model_matches c Y ob r o then 0%nat else 1%nat
+      if negb (spec_obs c halves Y tr batch ctx o) then 2%nat else
+      match collate_batch c halves Y batch ctx tr with
+      | Ok ((ob, mctx, r), []) => if model_matches c Y ob mctx r o then 0%nat else 1%nat
       | _ => 1%nat
       end
   | _ =>
-      match collate_batch c halves batch tr with
-      | None => 0%nat
-      | Some _ => 1%nat
+      match collate_batch c halves Y batch ctx tr with
+      | Err e => if Nat.eqb (err_code e) outcome then 0%nat else 1%nat
+      | Ok _ => 1%nat
       end
   end.
